@@ -1,5 +1,6 @@
 import SwcVerif.Props.C17
 import SwcVerif.Props.C17Gen
+import SwcVerif.Props.C17Front
 #print axioms C17.init_inv
 #print axioms C17.greedy_step
 #print axioms C17.step_inv
@@ -21,3 +22,12 @@ import SwcVerif.Props.C17Gen
 #print axioms C17.generated_greedy_step
 #print axioms C17.generated_prim_minimal
 #print axioms C17.generated_prim_attains
+#print axioms RefineMstFront.for1_step'
+#print axioms RefineMstFront.mst_call_refines
+#print axioms C17.generated_call_eq_model
+#print axioms C17.table_rows
+#print axioms C17.generated_call_spanning
+#print axioms C17.generated_call_branching_limit
+#print axioms C17.generated_call_prim_minimal
+#print axioms C17.generated_call_raises_empty
+#print axioms C17.generated_call_raises_bad_soma
